@@ -33,6 +33,9 @@ def run(ctx):
     neg = ctx.tlc("WarcWrite", "C02_model_noretrywait.cfg", workers=2, name="model-noretrywait")
     if neg.ok or "StoredBeforeFinish" not in (neg.violated or ""):
         raise vf.Inconclusive("WarcWrite without the wait on retried attempts does not violate StoredBeforeFinish: the model does not discriminate")
+    neg2 = ctx.tlc("WarcWrite", "C02_model_sharedfb.cfg", workers=2, name="model-sharedfb")
+    if neg2.ok or "StoredBeforeFinish" not in (neg2.violated or ""):
+        raise vf.Inconclusive("WarcWrite with concurrent fetches waiting for the last started request's signal does not violate StoredBeforeFinish: the model does not discriminate")
     ctx.build_harness(("zeno-verif",))
     if ctx.replay:
         traces = [("replay", ctx.replay)]
